@@ -33,6 +33,8 @@ ADAPTER = "harness.adapters_c12:Adapter"
 PROPS = ["NoEmitBlocked", "IngressExcluded", "NoRecvRespected", "FloodRule", "AllRule", "InOrder",
          "MissRule", "CountersExact", "PortModExact", "BufferedAsSent"]
 TRAFFIC = ("Rx", "PacketOut", "PacketOutBuf")
+# Several small single-worker JVMs run side by side: keep each one light (startup dominates their run time).
+JVM = {"JAVA_TOOL_OPTIONS": "-XX:ParallelGCThreads=2 -XX:CICompilerCount=2 -XX:TieredStopAtLevel=1"}
 
 # config -> (actions that must be covered, adapter params)
 CONFIGS = {
@@ -120,7 +122,7 @@ class Oracle(object):
       json.dump(todo, f)
     try:
       r = tlc.run(DIR, "EncTable", "EncTable.cfg", workers=1, coverage=False, tag="C12",
-                  env={"C12_RECS": path}, timeout=900)
+                  env=dict(JVM, C12_RECS=path), timeout=900)
     finally:
       os.unlink(path)
     if r.violated:
@@ -249,16 +251,17 @@ def run(ctx):
               "switch are validated by TLC.  distinct = distinct action/argument sequences; non-trivial = "
               "contains at least one frame passing through the datapath")
   ctx.assumptions = [
-      "bounds: 3 ports; 20 frame shapes (untagged/tagged x IPv4 TCP/UDP/ICMP/other, ARP, opaque ethertype, 802.1D "
-      "BPDU, odd payloads, CFI set, fragments, 242-byte frame); action lists: every list of length <= 2 over the "
-      "alphabet (28 actions thorough / 18 quick: 12 types x argument classes x 14 output targets) + output-"
-      "rewrite-output and rewrite-rewrite-output triples exhaustively, length <= 6 by seeded random lists; port "
+      "bounds: 3 ports; 21 frame shapes (untagged/tagged x IPv4 TCP/UDP/ICMP/other, ARP, opaque ethertype, 802.1D "
+      "BPDU, odd payloads, CFI set, ECN set, first/later fragments, 242-byte frame); action lists: every list of length <= 2 over the "
+      "alphabet (thorough 28 actions: 14 rewrites over the 10 rewrite types + 14 outputs/enqueues to ports 1-3, an "
+      "absent port, IN_PORT, FLOOD, ALL, CONTROLLER with max_len 65535/0, NORMAL, LOCAL, NONE; quick 10 + 8; TABLE in "
+      "packet-outs) + output-rewrite-output and rewrite-rewrite-output triples exhaustively, length <= 6 by seeded random lists; port "
       "flags: all 64 sets of the six settable bits on port 1 (x 8 sets on port 2 in thorough)",
       "the flow table holds at most one, match-everything entry (matching is C03/C04's subject); packet buffers "
       "are plentiful (C18 covers exhaustion); output:TABLE is exercised as the last action of a packet-out list "
       "only (what later actions see after TABLE differs between switches) and never in a flow entry",
       "frames carry correct lengths and checksums and no Ethernet padding; frames arriving on a port that is "
-      "administratively down are outside the model",
+      "administratively down, and nw/tp rewrites of a first IPv4 fragment, are outside the model",
       "spec latitude: frames emitted by ONE flood/all action are a set per action (order between actions fixed); "
       "a frame refused at ingress may or may not count as received; output:CONTROLLER from a NO_PACKET_IN port "
       "may or may not send",
@@ -290,11 +293,11 @@ def run(ctx):
   num = 40 if quick else 600
 
   def mx(n):
-    return tlc.run(DIR, "MCDatapath", "MX_%s.cfg" % n, workers=1, tag="C12", timeout=3000)
+    return tlc.run(DIR, "MCDatapath", "MX_%s.cfg" % n, workers=1, tag="C12", timeout=3000, env=JVM)
 
   def simulate(_):
     return tlc.run(DIR, "MCDatapath", "EX_sim.cfg", workers=1, coverage=False, simulate=dict(num=num),
-                   depth=31, seed=ctx.seed + 1, tag="C12", env={"C12_LISTS": lpath}, timeout=1500)
+                   depth=31, seed=ctx.seed + 1, tag="C12", env=dict(JVM, C12_LISTS=lpath), timeout=1500)
 
   try:
     with concurrent.futures.ThreadPoolExecutor(max_workers=7) as pool:
@@ -361,7 +364,8 @@ def run(ctx):
     bad1, bad2 = corrupt(traces)
     jobs.append((kind, cfg, traces, [bad1, bad2]))
   with concurrent.futures.ThreadPoolExecutor(max_workers=2) as pool:
-    futs = [pool.submit(tracecheck.validate, DIR, "TraceDatapath", cfg, traces + bad, tag="C12-" + kind, timeout=3000)
+    futs = [pool.submit(tracecheck.validate, DIR, "TraceDatapath", cfg, traces + bad, tag="C12-" + kind, timeout=3000,
+                        extra_env=JVM)
             for kind, cfg, traces, bad in jobs]
     outs = [f.result() for f in futs]
   for (kind, cfg, traces, bad), (r, rej) in zip(jobs, outs):
@@ -575,7 +579,7 @@ def replay_one(ctx, rep):
   good = [dict(a="SetFrag", args=dict(drop=False), obs=dict(quiet=True), wf=True)]
   bad = [dict(a="SetFrag", args=dict(drop=False), obs=dict(quiet=False), wf=True)]
   cfg = "Trace_buf.cfg" if rep["kind"] == "buf" else "Trace.cfg"
-  r, rej = tracecheck.validate(DIR, "TraceDatapath", cfg, [trace, good, bad], tag="C12", timeout=600)
+  r, rej = tracecheck.validate(DIR, "TraceDatapath", cfg, [trace, good, bad], tag="C12", timeout=600, extra_env=JVM)
   rejected = dict(rej)
   if 1 in rejected or 2 not in rejected:
     raise tlc.TLCError("trace validation controls failed during replay")
